@@ -277,11 +277,26 @@ def dep_json(d):
 INVALIDATE = {"D": "ByDependencies", "A": "Always", "N": "Never"}
 
 
+def output_kind(path):
+    """every declared output is a file, a metric or an image -- the kind is a function of the name, so that a spec
+    stays a replayable input without a new field: all three kinds must give the same implicit edges"""
+    import zlib
+    return ("File", "Metric", "Image")[zlib.crc32(path.encode()) % 3]
+
+
+def output_json(path):
+    k = output_kind(path)
+    if k == "Metric":
+        ext = path.rsplit(".", 1)[-1].lower()
+        return {"Metric": {"path": path, "format": {"csv": "CSV", "json": "JSON", "tsv": "TSV"}.get(ext, "Unknown")}}
+    return {k: {"path": path}}
+
+
 def pipeline_json(spec, journal):
     return {"name": "default", "version": 1, "workdir": "",
             "steps": [{"name": s["name"], "command": command_of(s, journal), "invalidate": INVALIDATE[s["when"]],
                        "dependencies": [dep_json(d) for d in s["deps"]],
-                       "outputs": [{"File": {"path": o}} for o in s["outs"]]} for s in spec["steps"]]}
+                       "outputs": [output_json(o) for o in s["outs"]]} for s in spec["steps"]]}
 
 
 class Env:
